@@ -3,15 +3,15 @@
 import json
 CHECKS = {
  "C09": dict(engine="refcache", category="exploration", design="§3 C09",
-   technique="runtime monitor: lock-step reference model over recorded cache operations (exhaustive short sequences + PRNG sequences, including hand-over of the cache to a flushing and a non-flushing persister and capacity changes on the live cache)",
+   technique="runtime monitor: lock-step reference model over recorded cache operations (exhaustive short sequences + PRNG sequences, including hand-over of the cache to a flushing and a non-flushing persister and capacity changes on the live cache); WithCacheSize called for its effect",
    text="Every operation sequence up to length 5/6 over a 9-op alphabet (two capacities) plus tens of thousands to millions of PRNG sequences are executed on the real cache.Cache next to a reference cache; after every operation the exported fields must equal the model (or be unchanged after a rejection). Held-on-observed, not a proof.",
    note="Trusted: the 60-line reference cache and its reading of the cache.Memory contract; ReservedSize of dead symbols and Pop on the single top frame are don't-care."),
  "C14": dict(engine="codec", category="exploration", design="§3 C14",
-   technique="runtime monitor: round-trip and three-way decoder agreement over enumerated argument domains (all uint32 in thorough) and PRNG programs, with reused handlers and with the input buffer overwritten after decoding (aliasing oracle), every legal integer form through the encoder, and replaced handler fields",
+   technique="runtime monitor: round-trip and three-way decoder agreement over enumerated argument domains (all uint32 in thorough) and PRNG programs, with reused handlers and with the input buffer overwritten after decoding (aliasing oracle), every legal integer form through the encoder, and replaced handler fields; MenuProcessor asked to encode twice",
    text="The library's encoders (vm.NewLine, asm.writeSize/writeSym through the verif hook) are run over every symbol length 1..255, every uint32 (thorough) or all width boundaries plus 2M values (quick), and PRNG programs; each encoding is decoded by the VM's Parse* functions, the disassembler and an independent harness decoder, and must come back identical with exact byte consumption; asm.Parse(ToString(b)) must reproduce b.",
    note="Trusted: the harness decoder written from the format description. Programs outside the assembler's own grammar skip the re-assembly leg."),
  "C15": dict(engine="codec", category="exploration", design="§3 C15",
-   technique="runtime monitor: strict-validator oracle + recover() + differential over-read detection (three buffer presentations plus a listing into a writer that fails) on exhaustively enumerated short inputs and all single-byte mutants/truncations of valid programs; Vm.Run on a new state and on the state after a failed load; the dev/disasm command built from the tree and run as a process on valid, damaged and text-looking files; Go coverage-guided fuzzing on the same oracle in the thorough tier",
+   technique="runtime monitor: strict-validator oracle + recover() + differential over-read detection (three buffer presentations plus a listing into a writer that fails) on exhaustively enumerated short inputs and all single-byte mutants/truncations of valid programs; Vm.Run on a new state and on the state after a failed load; the dev/disasm command built from the tree and run as a process on valid, damaged and text-looking files; Go coverage-guided fuzzing on the same oracle in the thorough tier; one long-lived ParseHandler handed every input in a reused buffer",
    text="Every byte string up to length 3 (thorough; quick a subset covering every in-range opcode), all strings of length 4..6 over an 18-byte alphabet, and every truncation and single-byte substitution of PRNG programs are fed to ParseAll/ToString, the VM's Parse* chain and Vm.Run; a panic, success on input the validator classifies as malformed, or a result that depends on bytes beyond the slice is a violation.",
    note="Trusted: the strict validator. NOOP (opcode 0) and rejection of complete-valid input are don't-care. Vm.Run: runtime-error panics only."),
  "C16": dict(engine="codec", category="exploration", design="§3 C16",
@@ -19,11 +19,11 @@ CHECKS = {
    text="Tens of thousands (quick) to a million (thorough) sources over every opcode, all token classes of the documented grammar, all numeric widths and batch groups are assembled; the emitted bytecode must decode to exactly the instructions written. Half of the sources contain only token classes with no recorded finding so a new break cannot hide behind a known one.",
    note="Trusted: the harness decoder and the expansion table transcribed from instructions.texi. Known findings (numeric-first lexing, upper-case initial) are listed in KNOWN_FINDINGS.txt by token class."),
  "C13": dict(engine="pgfake", category="fault_enumeration", design="§3 C13",
-   technique="runtime monitor with fault injection: exhaustive operation sequences x every single and double failing driver primitive (begin, exec, query, next, scan, commit, rollback), including a Put with no data type selected, against an in-process transactional fake of the pgx interface; oracle over the driver call log, acknowledged-write reference map and committed map at quiescence; WithConnection(same pool) on the live store as a further operation",
+   technique="runtime monitor with fault injection: exhaustive operation sequences x every single and double failing driver primitive (begin, exec, query, next, scan, commit, rollback), including a Put with no data type selected, against an in-process transactional fake of the pgx interface; oracle over the driver call log, acknowledged-write reference map and committed map at quiescence; WithConnection(same pool) on the live store as a further operation; injected failures as anonymous errors, errors wrapping context.Canceled, and *pgconn.PgError values with SQLSTATE codes, at every primitive",
    text="All client-legal sequences up to length 4 (quick) / 5 plus 400k longer PRNG sequences (thorough), each with every choice of 0, 1 or 2 failing primitive calls (begin/exec/query/next/scan/commit): the faulted operation must report an error, no panic, fault-free operations outside a dirty transaction must succeed and return acknowledged values, every transaction must be finished by Close, and the committed map must match the acknowledged writes.",
    note="Trusted base: pgfake's model of Postgres/pgx transaction semantics (no real Postgres offline). Dirty explicit transactions are don't-care. One recorded finding family (sticky multi mode after Stop, pinned by the repository's own test)."),
  "C07": dict(engine="sessions-differential", category="exploration", design="§3 C07",
-   technique="runtime monitor: two-run differential (long-lived engine vs fresh engine+persister+store handle per request) over generated applications and histories on four backends, plus snapshot re-read equality; two interleaved sessions per store with a persister of their own or one shared persister object (flushing / plain) and requests abandoned before Finish; engine.Loop as the driver (whole history, one call per request); sessions 12..100 levels deep; sessions started from prepared state and cache objects; saves refused once by the store and repeated by the client; sessions with more than 1024 visible symbols",
+   technique="runtime monitor: two-run differential (long-lived engine vs fresh engine+persister+store handle per request) over generated applications and histories on four backends, plus snapshot re-read equality; two interleaved sessions per store with a persister of their own or one shared persister object (flushing / plain) and requests abandoned before Finish; engine.Loop as the driver (whole history, one call per request); sessions 12..100 levels deep; sessions started from prepared state and cache objects; saves refused once by the store and repeated by the client; sessions with more than 1024 visible symbols; two long-lived store handles serving a session in turn; a session 150 levels deep under a raised state.MaxLevel",
    text="The same generated application, configuration and input history are served by one long-lived engine and by a new engine per request over mem, fs, fs-binary and the Postgres driver fake; outputs, continue flags and error classes must agree step by step to the end of the session, and after every save the snapshot read back through a fresh handle must equal the live state/cache. No model is involved.",
    note="Assumes error classes (not texts) are what the client observes; histories end at the first failing request. Trusted: harness drivers and pgfake."),
  "C08": dict(engine="sessions-differential", category="exploration", design="§3 C08",
@@ -39,7 +39,7 @@ CHECKS = {
    text="Rounds of 2..16 goroutines each serve an own session (four driver/backend combinations) over one shared application whose code slices have canary-filled spare capacity; any race report with a library frame, any transcript that differs from the same session served alone, or any modified shared byte is a violation. Evidence reports goroutines, callbacks and cross-session switches observed.",
    note="Covers only the schedules that occurred. Harness-only race reports make the run inconclusive (monitor defect), never a pass."),
  "C01": dict(engine="render", category="exploration", design="§3 C01",
-   technique="runtime monitor: relation oracle over real renders (render.Page/Menu/Sizer driven directly, and whole applications through Engine.Flush in lock-step with an unlimited run) at adversarially chosen sizes around every natural page length, including pages whose sizer replaces an earlier one",
+   technique="runtime monitor: relation oracle over real renders (render.Page/Menu/Sizer driven directly, and whole applications through Engine.Flush in lock-step with an unlimited run) at adversarially chosen sizes around every natural page length, including pages whose sizer replaces an earlier one; inputs that look like template syntax echoed on the catch page at every size; MSINK pages with an empty template",
    text="Every generated page configuration is measured without limit and then rendered at every size around its natural length and around the sink-less length, plus a sweep; any successful output longer than the size, any non-sink page that differs from the composed text, any over-long page returned instead of an error and any output written together with an error is a violation. The engine layer serves generated applications in lock-step with and without a limit, sizes taken from the natural lengths of that very history.",
    note="Trusted: the harness's composition of the page text. A fitting page that fails for a reason other than size is outside the property (counted). Known: exit value appended/only written at session end."),
  "C02": dict(engine="render", category="exploration", design="§3 C02",
@@ -51,7 +51,7 @@ CHECKS = {
    text='Thousands of generated programs with duplicate selectors, wildcards anywhere, relative targets and interleaved instructions are served with histories over their selector alphabet plus junk; after every request the nodes fetched and the position must equal first-match-once routing, and an unmatched input must show the invalid-input catch page.',
    note="Trusted base: the SpecVM model (harness/specvm) written from doc/texinfo and the property statements; don't-care where they are silent (state after a failed request, internal flags, paginated pages). Histories are PRNG-determined; held-on-observed only."),
  "C04": dict(engine="sessions-model", category="exploration", design="§3 C04",
-   technique="runtime monitor: lock-step executable reference model (SpecVM) over recorded histories at the API boundary (recording resource, live State/Cache objects, decoded stored snapshot), this property's projection only (node path and page index, live and stored)",
+   technique="runtime monitor: lock-step executable reference model (SpecVM) over recorded histories at the API boundary (recording resource, live State/Cache objects, decoded stored snapshot), this property's projection only (node path and page index, live and stored); node names that differ only in letter case; every eighth history in alternation with a session of another application",
    text='Generated node graphs are navigated with histories of up to 40 inputs in the long-lived and persisted drivers; after every request State.ExecPath/SizeIdx (live and decoded from the store) must equal the documented move table applied to the moves executed, and failing moves must fail the request.',
    note="Trusted base: the SpecVM model (harness/specvm) written from doc/texinfo and the property statements; don't-care where they are silent (state after a failed request, internal flags, paginated pages). Histories are PRNG-determined; held-on-observed only."),
  "C05": dict(engine="sessions-model", category="exploration", design="§3 C05",
@@ -71,7 +71,7 @@ CHECKS = {
    text='Applications with both kinds of end nodes, TERMINATE-setting functions and CROAK are driven past the end of the session over several end/restart cycles on mem, fs and the Postgres fake; graceful ends must deliver page+exit value and restart at the entry node with an empty cache and the client flags kept; terminated sessions must stay silent until the flag is cleared.',
    note="Trusted base: the SpecVM model (harness/specvm) written from doc/texinfo and the property statements; don't-care where they are silent (state after a failed request, internal flags, paginated pages). Histories are PRNG-determined; held-on-observed only."),
  "C10": dict(engine="refstore", category="exploration", design="§3 C10",
-   technique="runtime monitor: lock-step reference map over recorded store operations, the same sequence applied to mem, fs, fs-binary and the Postgres driver fake (each compared with the model and thereby with each other), including resource.DbResource getters and fs listings; caller-owned key/value buffers are overwritten after every call (aliasing oracle); enumerated translation family; listings abandoned before compared listings; write faults by RLIMIT_FSIZE on the fs store; values with byte order marks, magic numbers, line ends and blanks at either end",
+   technique="runtime monitor: lock-step reference map over recorded store operations, the same sequence applied to mem, fs, fs-binary and the Postgres driver fake (each compared with the model and thereby with each other), including resource.DbResource getters and fs listings; caller-owned key/value buffers are overwritten after every call (aliasing oracle); enumerated translation family; listings abandoned before compared listings; write faults by RLIMIT_FSIZE on the fs store; values with byte order marks, magic numbers, line ends and blanks at either end; SetLock with several data types in one call; values of 1..17 MiB",
    text="PRNG sequences of Put/Get/SetPrefix/SetSession/SetLanguage/SetLock(seal)/Dump and DbResource lookups over well-formed keys (including the letters that double as fs type characters), dot-free session ids, text/binary/empty values and all six data types are applied to a reference map and to four backends; reads, not-found recognition, language fallback, lock refusal, sealing, the resource's refusal of unlocked stores and prefix listings must agree with the model.",
    note="Trusted: the reference map; pgfake for Postgres. Listings are compared for types without language scope. One recorded finding (empty session lists all sessions)."),
  "C11": dict(engine="refstore", category="exploration", design="§3 C11",
